@@ -172,6 +172,12 @@ def run_filter(case):
     dec_b = {k: (c + 1 if c + 1 != 0 else c + 2) for k, c in bd.items()} or {0: 1}
     dec_a = {k: (c if k == 0 else c * 2) for k, c in ad.items()}
     list(ZFilter(dict(dec_b), dict(dec_a))([Q(3), Q(-1), Q(2)], zero=Q(7)))
+    # two more: everything equal but the leading denominator coefficient (the output gain)
+    for g_ in (2, -1):
+      dec_a2 = dict(ad)
+      dec_a2[0] = ad.get(0, 1) * g_
+      if bd:
+        list(ZFilter(dict(bd), dec_a2)([Q(3), Q(-1), Q(2)], zero=Q(7)))
     filt = build(ctor, b, a)
     kw = {}
     if memk != "none":
@@ -315,7 +321,7 @@ COEF_TYPES = OrderedDict([
   ("float", [0.1, -2.5, 1e-3, 1e22]),
   ("bool", [True]),
 ])
-CT_SHAPES = ["fir2", "fir-gap", "fir-single-delay", "iir-a1", "iir-a2", "a0"]
+CT_SHAPES = ["fir2", "fir-gap", "fir-single-delay", "iir-a1", "iir-a2", "a0", "both-k1", "both-k0-k1", "both-k2"]
 CT_X = [3, -1, 4, 1, -5, 9, 2, -6, 5, 3, 5, -9]
 
 
@@ -337,6 +343,17 @@ def run_coef_types(case):
   elif shape == "fir-single-delay": b, a = {2: c}, {0: 1}
   elif shape == "iir-a1": b, a = {0: 1}, {0: 1, 1: c}
   elif shape == "iir-a2": b, a = {0: d, 1: 1}, {0: 1, 2: c}
+  # the same delay carries a coefficient of this type in the numerator AND in the denominator
+  elif shape.startswith("both") and tname in ("fraction", "float") and max(abs(c), abs(d)) > 1000:
+    # Fractions are evaluated in floating point by the generated code: with coefficients of 1e17 next to
+    # samples of 1 the recurrence cancels catastrophically, which says nothing about the filter
+    return R(None, False, "ill-conditioned in floating point")
+  elif shape == "both-k1": b, a = {0: 1, 1: d}, {0: 1, 1: c}
+  elif shape == "both-k2": b, a = {0: 1, 2: c}, {0: 1, 1: 1, 2: d}
+  elif shape == "both-k0-k1":
+    if tname in ("complex", "bigint", "float"):
+      return R(None, False, "a0 needs exact division")
+    b, a = {0: d, 1: c}, {0: c, 1: d}
   else:
     if tname in ("complex", "bigint", "float"):
       return R(None, False, "a0 needs exact division")     # y / a0 is not exact for these types
